@@ -483,9 +483,7 @@ func (e *c12env) shrinkC12(run int, inv gencore.Invocation, other *gencore.Invoc
 	trace = append(trace, o2.events...)
 	rp := Replay{Property: "C12", FindingKey: key, Seed: e.job.Seed, Run: run, Invocation: &inv, Tape: min, Masked: masked, Trace: trace,
 		Observed: o.class + ": " + o.detail, Expected: "byte-identical files to the sorted-order fresh run of the same invocation", SiteTable: e.job.Sites}
-	if o.h == 2 {
-		rp.Other = other
-	}
+	rp.Other = other // needed by several legs (history, out-dir state, -dir mode)
 	return &Violation{Key: key, Replay: rp}
 }
 
